@@ -62,8 +62,10 @@ structure St where
   word : Nat := 0
   /-- completions in the completion queue (wake messages, or anything else) -/
   cq : Nat := 0
-  /-- wake messages published in the submission queue, not yet consumed -/
-  sq : Nat := 0
+  /-- entries published in the submission queue, not yet consumed, oldest first:
+  `true` = a wake message (MSG_RING), `false` = any other submission (an operation
+  somebody started; it stays in flight once consumed: nothing completes here) -/
+  sq : List Bool := []
   p : PPc := .idle
   w : List WPc := []
   /-- ghost: a `wake()` call passed its `fetch_or` since the poller last returned -/
@@ -78,11 +80,10 @@ def AWOKEN : Nat := 2
 /-- The kernel consumes the published wake messages: each posts one completion
 (`user_data` 1) on the ring (KC7). -/
 def consume (s : St) (n : Nat) : St :=
-  let k := min n s.sq
-  { s with cq := s.cq + k, sq := s.sq - k }
+  { s with cq := s.cq + ((s.sq.take n).filter id).length, sq := s.sq.drop n }
 
 /-- `unsubmitted_submissions()` as passed to `io_uring_enter` (0 with SQPOLL). -/
-def toSubmit (s : St) : Nat := if s.mode == .sqpoll then 0 else s.sq
+def toSubmit (s : St) : Nat := if s.mode == .sqpoll then 0 else s.sq.length
 
 /-- One step of the poller. -/
 def stepP (s : St) : St :=
@@ -106,7 +107,7 @@ def stepP (s : St) : St :=
 
 /-- Try to queue the wake message (`Submissions::add`). -/
 def tryAdd (s : St) : St × Bool :=
-  if s.sq < s.sqLen then ({ s with sq := s.sq + 1 }, true) else (s, false)
+  if s.sq.length < s.sqLen then ({ s with sq := s.sq ++ [true] }, true) else (s, false)
 
 /-- One step of waker `j`. -/
 def stepW (s : St) (j : Nat) : St :=
@@ -133,10 +134,15 @@ def stepW (s : St) (j : Nat) : St :=
     | .done => s
 
 /-- The SQPOLL kernel thread consumes the submissions. -/
-def stepK (s : St) : St := if s.mode == .sqpoll then consume s s.sq else s
+def stepK (s : St) : St := if s.mode == .sqpoll then consume s s.sq.length else s
 
 /-- Something else completes (any I/O): one more completion in the queue. -/
 def stepIo (s : St) : St := { s with cq := s.cq + 1 }
+
+/-- Somebody starts an operation: its submission is queued (not submitted) if
+there is room. -/
+def stepFill (s : St) : St :=
+  if s.sq.length < s.sqLen then { s with sq := s.sq ++ [false] } else s
 
 /-- A new `Ring::poll(timeout)` call (only when the previous one returned). -/
 def startPoll (s : St) (inf : Bool) : St :=
@@ -169,7 +175,7 @@ def showW : WPc → String
   | .done => "done"
 
 def showState (s : St) : String :=
-  s!"word={s.word} cq={s.cq} sq={s.sq} returns={s.returns}"
+  s!"word={s.word} cq={s.cq} sq={s.sq.length} returns={s.returns}"
 
 def parseMode (m : String) : Option Mode :=
   if m == "default" then some .default
@@ -211,6 +217,7 @@ def stepLine (s : St) (toks : List String) : St × List String :=
     | none => (s, ["bad-op"])
   | ["wake", "k"] => let s' := stepK s; (s', [s!"k {showState s'}"])
   | ["wake", "io"] => let s' := stepIo s; (s', [s!"io {showState s'}"])
+  | ["wake", "fill"] => let s' := stepFill s; (s', [s!"fill {showState s'}"])
   | _ => (s, ["bad-op"])
 
 end A10.Wake
